@@ -723,3 +723,109 @@ func TestSmallScopeExhaustive(t *testing.T) {
 	hx.EvalN(int(n))
 	hx.Part(fmt.Sprintf("all valid complete frame sequences of length<=%d over {T,B,C}x fin x len{0,1,5} + {ping,pong}x len{0,1,5}, x 2 sides x chunk{1,all} x 4 entry points", depth), n, true)
 }
+
+// TestLargeScale: deterministic cases the random generator does not reach by
+// size: single frames around and beyond 1 MiB (the helpers read those in
+// growing steps), a message of several hundred fragments with interleaved
+// control frames, and several hundred messages through one reader.
+func TestLargeScale(t *testing.T) {
+	const MiB = 1 << 20
+	mk := func(op byte, fin, masked bool, k int, p []byte) ref.Frame {
+		h := ref.Header{Fin: fin, Op: op, Masked: masked}
+		if masked {
+			h.Mask = [4]byte{byte(k), 0x37, byte(k >> 8), 0xc1}
+		}
+		return ref.Frame{H: h, Payload: p}
+	}
+	pattern := func(n, salt int) []byte {
+		p := make([]byte, n)
+		for i := range p {
+			p[i] = byte(i*7 + i>>9 + salt)
+		}
+		return p
+	}
+	type shape struct {
+		name   string
+		frames func(masked bool) []ref.Frame
+	}
+	sizes := []int{MiB - 1, MiB, MiB + 1, 2*MiB + 3}
+	if hx.Thorough() {
+		sizes = append(sizes, 3*MiB, 4*MiB+5)
+	}
+	var shapes []shape
+	for _, n := range sizes {
+		n := n
+		shapes = append(shapes, shape{fmt.Sprintf("one frame of %d bytes + a small message", n), func(masked bool) []ref.Frame {
+			return []ref.Frame{mk(ref.OpBinary, true, masked, 1, pattern(n, 1)), mk(ref.OpBinary, true, masked, 2, []byte("tail"))}
+		}})
+		shapes = append(shapes, shape{fmt.Sprintf("two fragments of %d and 70000 bytes", n), func(masked bool) []ref.Frame {
+			return []ref.Frame{mk(ref.OpBinary, false, masked, 1, pattern(n, 3)), mk(ref.OpPing, true, masked, 9, []byte("p")), mk(ref.OpCont, true, masked, 2, pattern(70000, 4))}
+		}})
+	}
+	shapes = append(shapes, shape{"300 fragments with a ping after every 7th", func(masked bool) []ref.Frame {
+		var fs []ref.Frame
+		for i := 0; i < 300; i++ {
+			op := byte(ref.OpCont)
+			if i == 0 {
+				op = ref.OpBinary
+			}
+			fs = append(fs, mk(op, i == 299, masked, i, pattern(i%130, i)))
+			if i%7 == 6 && i < 299 {
+				fs = append(fs, mk(ref.OpPing, true, masked, i, pattern(i%126, i+1)))
+			}
+		}
+		return fs
+	}})
+	shapes = append(shapes, shape{"500 messages, every third fragmented", func(masked bool) []ref.Frame {
+		var fs []ref.Frame
+		for i := 0; i < 500; i++ {
+			op := byte(ref.OpBinary)
+			if i%3 == 0 {
+				fs = append(fs, mk(op, false, masked, i, pattern(i%200, i)), mk(ref.OpCont, true, masked, i+1, pattern(i%90, i+5)))
+			} else {
+				fs = append(fs, mk(op, true, masked, i, pattern(i%300, i)))
+			}
+			if i%11 == 0 {
+				fs = append(fs, mk(ref.OpPong, true, masked, i, pattern(i%20, i)))
+			}
+		}
+		return fs
+	}})
+	n := 0
+	for si, sh := range shapes {
+		if !hx.Mine(si) {
+			continue
+		}
+		for _, side := range []struct {
+			st     ws.State
+			masked bool
+			data   string
+			msg    string
+		}{{ws.StateServerSide, true, "ReadClientData", "ReadClientMessage"}, {ws.StateClientSide, false, "ReadServerBinary", "ReadServerMessage"}} {
+			frames := sh.frames(side.masked)
+			for _, chunks := range [][]int{nil, {4093}} {
+				for _, entry := range []string{"Reader", "NextReader", "ReadMessage", side.msg, side.data} {
+					s := scenario{Frames: frames, State: side.st, Chunks: chunks, Entry: entry, Want: ws.OpText | ws.OpBinary, Reuse: entry != "Reader" && si%2 == 0}
+					if entry == "ReadServerBinary" {
+						s.Want = ws.OpBinary
+					}
+					for _, e := range ref.Events(frames) {
+						if e.Kind == "msg" {
+							s.Discards = append(s.Discards, -1)
+						}
+					}
+					n++
+					hx.NonTrivial(hx.Hash("scale", sh.name, entry, side.masked, len(chunks)), func() interface{} {
+						return map[string]interface{}{"shape": sh.name, "entry": entry, "masked": side.masked, "chunks": chunks}
+					})
+					if err := run(s); err != nil {
+						hx.Failf(t, map[string]interface{}{"shape": sh.name, "entry": entry, "masked": side.masked, "chunks": chunks}, "%s: %v", sh.name, err)
+						return
+					}
+				}
+			}
+		}
+	}
+	hx.EvalN(n)
+	hx.Part("large scale: frames of 1 MiB-1 .. 2 MiB+3 (thorough: .. 4 MiB+5), 300-fragment message, 500 messages on one reader x 2 sides x chunk{all,4093} x 5 entry points", int64(n), true)
+}
